@@ -11,6 +11,28 @@ use std::sync::Mutex;
 
 pub const BLOCK: u64 = 128;
 
+/// A private copy of this executable, made once per process: worker and segment processes are
+/// spawned from it, so that a rebuild of `mc` while a long run is in progress cannot change the
+/// code (or the Ruschm tree compiled into it) under the run.
+pub fn frozen_exe() -> std::path::PathBuf {
+    static EXE: std::sync::OnceLock<std::path::PathBuf> = std::sync::OnceLock::new();
+    EXE.get_or_init(|| {
+        let me = std::env::current_exe().expect("current_exe");
+        let dir = std::path::PathBuf::from("/verif/target/scratch");
+        let _ = std::fs::create_dir_all(&dir);
+        let copy = dir.join(format!("mc-frozen-{}", std::process::id()));
+        match std::fs::copy(&me, &copy) {
+            Ok(_) => copy,
+            Err(_) => me,
+        }
+    })
+    .clone()
+}
+
+pub fn remove_frozen_exe() {
+    let _ = std::fs::remove_file(format!("/verif/target/scratch/mc-frozen-{}", std::process::id()));
+}
+
 /// how a case ended the worker process
 #[derive(Debug, Clone)]
 pub struct Death {
@@ -52,7 +74,7 @@ fn classify_death(status: &std::process::ExitStatus, stderr: &str) -> (String, S
 
 /// run `mc worker <args> <start> <end> <every_case>`; returns (records, last index completed, finished?, death info)
 fn run_child(args: &[String], start: u64, end: u64, every: bool) -> (Vec<J>, Option<u64>, Option<u64>, bool, String, String) {
-    let exe = std::env::current_exe().expect("current_exe");
+    let exe = frozen_exe();
     let mut child = Command::new(exe)
         .arg("worker")
         .args(args)
